@@ -166,6 +166,22 @@ async def actor_scenario(n_metrics, close_at):
                 if not (closed and i == 0):
                     await tx.send(Sample(now, Quantity(float(i + 1))))
         await actor.stop()
+        # stop() returns only after every task the actor spawned has finished (C10): nothing of the SDK keeps running
+        for _ in range(3):
+            await asyncio.sleep(0)
+        me = asyncio.current_task()
+        left = []
+        for t in asyncio.all_tasks():
+            if t is me or t.done():
+                continue
+            code = getattr(t.get_coro(), "cr_code", None)
+            # (the tasks the actor itself creates: its run loop, the subscription reader and Resampler.resample(); the
+            # per-source receive tasks belong to the Resampler object and are not what C10 speaks about - see DESIGN 7.6)
+            if code is not None and "/frequenz/sdk/" in code.co_filename and code.co_name in (
+                    "_run_loop", "_run", "_process_resampling_requests", "resample"):
+                left.append(f"{code.co_qualname if hasattr(code, 'co_qualname') else code.co_name} ({code.co_filename.split('/frequenz/sdk/')[-1]})")
+        if left:
+            return f"after ComponentMetricsResamplingActor.stop() returned, tasks it spawned are still running: {sorted(left)}"
         # read what the resampled streams carried: close each channel, then read its receiver to the end
         from frequenz.channels import ReceiverStoppedError
         collected = []
